@@ -210,7 +210,11 @@ static int
 _warc_rdhdr(struct archive_read *a, struct archive_entry *entry)
 {
 #define HDR_PROBE_LEN		(12U)
+#define HDR_PROBE_STEP		(512U)
+#define HDR_PROBE_MAX		(1024U * 1024U)
 	struct warc_s *w = a->format->data;
+	size_t probe;
+	int last_probe;
 	unsigned int ver;
 	const char *buf;
 	ssize_t nrd;
@@ -231,29 +235,48 @@ start_over:
 	/* just use read_ahead() they keep track of unconsumed
 	 * bits and bobs for us; no need to put an extra shift in
 	 * and reproduce that functionality here */
-	buf = __archive_read_ahead(a, HDR_PROBE_LEN, &nrd);
+	probe = HDR_PROBE_LEN;
+	last_probe = 0;
+	for (;;) {
+		buf = __archive_read_ahead(a, probe, &nrd);
 
-	if (nrd < 0) {
-		/* no good */
-		archive_set_error(
-			&a->archive, ARCHIVE_ERRNO_MISC,
-			"Bad record header");
-		return (ARCHIVE_FATAL);
-	} else if (buf == NULL) {
-		/* there should be room for at least WARC/bla\r\n
-		 * must be EOF therefore */
-		return (ARCHIVE_EOF);
-	}
- 	/* looks good so far, try and find the end of the header now */
-	eoh = _warc_find_eoh(buf, nrd);
-	if (eoh == NULL) {
-		/* still no good, the header end might be beyond the
-		 * probe we've requested, but then again who'd cram
-		 * so much stuff into the header *and* be 28500-compliant */
-		archive_set_error(
-			&a->archive, ARCHIVE_ERRNO_MISC,
-			"Bad record header");
-		return (ARCHIVE_FATAL);
+		if (nrd < 0) {
+			/* no good */
+			archive_set_error(
+				&a->archive, ARCHIVE_ERRNO_MISC,
+				"Bad record header");
+			return (ARCHIVE_FATAL);
+		} else if (buf == NULL) {
+			if (probe == HDR_PROBE_LEN) {
+				/* there should be room for at least
+				 * WARC/bla\r\n must be EOF therefore */
+				return (ARCHIVE_EOF);
+			}
+			/* fewer bytes left than we asked for:
+			 * look at all of them, once */
+			probe = (size_t)nrd;
+			last_probe = 1;
+			continue;
+		}
+		/* looks good so far, try and find the end of the
+		 * header now */
+		eoh = _warc_find_eoh(buf, nrd);
+		if (eoh != NULL)
+			break;
+		if (last_probe || (size_t)nrd >= HDR_PROBE_MAX) {
+			/* still no good, the header end might be beyond
+			 * the probe we've requested, but then again who'd
+			 * cram so much stuff into the header *and* be
+			 * 28500-compliant */
+			archive_set_error(
+				&a->archive, ARCHIVE_ERRNO_MISC,
+				"Bad record header");
+			return (ARCHIVE_FATAL);
+		}
+		/* The window ended before the header did: how much is
+		 * available beyond the minimum depends on the client's
+		 * block size, so ask for more than we have seen. */
+		probe = (size_t)nrd + HDR_PROBE_STEP;
 	}
 	ver = _warc_rdver(buf, eoh - buf);
 	/* we currently support WARC 0.12 to 1.0 */
